@@ -1,2 +1,218 @@
-/- driver stub for C15: replaced when the model exists -/
-def main : IO Unit := pure ()
+/- driver for C15: a device (objects with typed properties) served over
+   ReadProperty / WriteProperty / ReadPropertyMultiple — stateful -/
+import BacVerif.Drv.Tag
+import BacVerif.Model.Object
+import BacVerif.Gen.Objects
+open Lean BacVerif BacVerif.Drv BacVerif.Obj
+
+namespace C15
+
+/-! ### JSON → model -/
+
+def refusalOfStr (s : String) : R Refusal :=
+  match s with
+  | "object/unknownObject" => pure .unknownObject
+  | "property/unknownProperty" => pure .unknownProperty
+  | "property/propertyIsNotAnArray" => pure .notAnArray
+  | "property/invalidArrayIndex" => pure .invalidArrayIndex
+  | "property/writeAccessDenied" => pure .writeAccessDenied
+  | "property/valueOutOfRange" => pure .valueOutOfRange
+  | "property/duplicateName" => pure .duplicateName
+  | "opProblem" => pure .opProblem
+  | _ =>
+    if s.startsWith "reject:" then
+      match (s.drop 7).toNat? with
+      | some n => pure (.reject n)
+      | none => throw s!"bad refusal {s}"
+    else throw s!"bad refusal {s}"
+
+def itemOfJson (j : Json) : R Item := do
+  match fldOpt j "enc" with
+  | some t => pure (.enc (← tagsOfJson t))
+  | none => pure (.unenc (← refusalOfStr (← fldStr j "unenc")))
+
+def elemOfJson (j : Json) : R ElemTy := do
+  match ← fldStr j "k" with
+  | "any" => pure .anyAtomic
+  | "atomic" => pure (.atomic (← fldNat j "tag") (← fldNat j "lo") (← fldOptNat j "hi"))
+  | "cons" => pure (.cons (← fldNat j "ty"))
+  | k => throw s!"bad elem kind {k}"
+
+def dtOfJson (j : Json) : R DT := do
+  let e ← elemOfJson (← fld j "e")
+  match ← fldStr j "k" with
+  | "scalar" => pure (.scalar e)
+  | "list" => pure (.listOf e)
+  | "array" => pure (.arrayOf e (← fldOptNat j "fixed") (← itemOfJson (← fld j "dflt")))
+  | k => throw s!"bad datatype kind {k}"
+
+def customOfJson (j : Json) : R Custom := do
+  match ← fldStr j "custom" with
+  | "std" => pure .std | "objId" => pure .objId | "propList" => pure .propList
+  | "wrName" => pure .wrName
+  | "computed" => pure (.computed (← itemOfJson (← fld j "cval")))
+  | s => throw s!"bad custom {s}"
+
+def descOfJson (j : Json) : R PropDesc := do
+  let dflt ← match fldOpt j "dflt" with
+    | none => pure none
+    | some d => do pure (some (← itemOfJson d))
+  pure { id := ← fldNat j "id", rank := ← fldNat j "rank", dt := ← dtOfJson (← fld j "dt"),
+         optional := ← fldBool j "opt", mutable := ← fldBool j "mut",
+         custom := ← customOfJson j, dflt := dflt }
+
+def itemsOfJson (j : Json) : R (List Item) := do (← j.getArr?).toList.mapM itemOfJson
+
+def pvalOfJson (j : Json) : R PVal := do
+  if j.isNull then pure .absent else
+  match fldOpt j "one" with
+  | some x => pure (.one (← itemOfJson x))
+  | none =>
+    match fldOpt j "arr" with
+    | some x => pure (.arr (← itemsOfJson x))
+    | none => pure (.lst (← itemsOfJson (← fld j "lst")))
+
+def oidOfJson (j : Json) : R Oid := do
+  let a ← j.getArr?
+  if a.size ≠ 2 then throw "oid: need 2 items"
+  pure (← a[0]!.getNat?, ← a[1]!.getNat?)
+
+def decOfStr (s : String) : R Dec :=
+  if s = "ok" then pure .ok
+  else if s = "other" then pure .other
+  else if s.startsWith "reject:" then
+    match (s.drop 7).toNat? with
+    | some n => pure (.reject n)
+    | none => throw s!"bad dec {s}"
+  else throw s!"bad dec {s}"
+
+def wireOfJson (j : Json) : R Wire := do
+  let chunks ← (← fldArr j "chunks").toList.mapM tagsOfJson
+  pure { chunks := chunks, dec := ← decOfStr (← fldStr j "dec") }
+
+def optInt (j : Json) (k : String) : R (Option Int) :=
+  match fldOpt j k with
+  | none => pure none
+  | some v => do pure (some (← v.getInt?))
+
+/-! ### model → JSON -/
+
+def errNames : Refusal → (String × String)
+  | .unknownObject => ("object", "unknownObject")
+  | .unknownProperty => ("property", "unknownProperty")
+  | .notAnArray => ("property", "propertyIsNotAnArray")
+  | .invalidArrayIndex => ("property", "invalidArrayIndex")
+  | .writeAccessDenied => ("property", "writeAccessDenied")
+  | .valueOutOfRange => ("property", "valueOutOfRange")
+  | .duplicateName => ("property", "duplicateName")
+  | .opProblem => ("device", "operationalProblem")
+  | .reject _ => ("", "")
+
+/-- Error PDU: class/code by name and by the numbers of the live enumerations -/
+def jRefusal (r : Refusal) : Json :=
+  match r with
+  | .reject n => Json.mkObj [("r", "reject"), ("reason", Json.num n)]
+  | _ =>
+    let (c, k) := errNames r
+    let nums : Json := match Gen.Objects.errorNumbers r with
+      | some (a, b) => Json.arr #[Json.num a, Json.num b]
+      | none => Json.null
+    Json.mkObj [("r", "error"), ("cls", c), ("code", k), ("num", nums)]
+
+def jTagsHex (ts : List Tag) : Json := jHex (serializeTags ts)
+
+def jIdx : Option Nat → Json
+  | none => Json.null
+  | some n => Json.num n
+
+def jOid (o : Oid) : Json := Json.arr #[Json.num o.1, Json.num o.2]
+
+def jElem (e : RElem) : Json :=
+  match e.res with
+  | .val ts => Json.mkObj [("pid", Json.num e.pid), ("idx", jIdx e.idx), ("val", jTagsHex ts)]
+  | .err r =>
+    let (c, k) := errNames r
+    Json.mkObj [("pid", Json.num e.pid), ("idx", jIdx e.idx), ("err", Json.arr #[Json.str c, Json.str k])]
+
+def jItemHex : Item → Json
+  | .enc ts => jTagsHex ts
+  | .unenc _ => Json.str "!"
+
+def jPVal : PVal → Json
+  | .absent => Json.null
+  | .one it => Json.arr #[Json.str "one", jItemHex it]
+  | .arr its => Json.arr #[Json.str "arr", Json.arr (its.map jItemHex).toArray]
+  | .lst its => Json.arr #[Json.str "lst", Json.arr (its.map jItemHex).toArray]
+
+/-- canonical digest of the whole device: every stored value of every object
+    (computed properties are not state and are left out) -/
+def jSnapshot (d : Device) : Json :=
+  Json.arr (d.objs.map fun (oid, o) =>
+    Json.mkObj [("oid", jOid oid),
+      ("props", Json.arr (o.props.filterMap fun s =>
+        if (match s.d.custom with | .computed _ => true | .propList => true | _ => false) then none
+        else some (Json.arr #[Json.num s.d.id, jPVal s.v])).toArray)]).toArray
+
+/-! ### the handler -/
+
+def handle (d : Device) (j : Json) : R (Device × Json) := do
+  match ← fldStr j "op" with
+  | "reset" => pure ({ objs := [], localDev := none }, jOk [])
+  | "add" =>
+      -- an instance of a class derived from registered type `base`, declaring `own`
+      let oid ← oidOfJson (← fld j "oid")
+      let base ← fldNat j "base"
+      let some row := Gen.Objects.objectTypes.find? (fun t => t.num = base)
+        | throw s!"object type {base} is not in the generated table"
+      let own ← (← fldArr j "own").toList.mapM descOfJson
+      let props := mergeProps own row.props
+      let cmd ← match fldOpt j "cmd" with
+        | none => pure none
+        | some c => do
+          let a ← c.getArr?
+          if a.size ≠ 3 then throw "cmd: need 3 items"
+          pure (some { pv := ← a[0]!.getNat?, pa := ← a[1]!.getNat?, rd := ← a[2]!.getNat? : Cmd })
+      let init ← (← fldArr j "init").toList.mapM fun kv => do
+        let a ← kv.getArr?
+        if a.size ≠ 2 then throw "init: need pairs"
+        pure (← a[0]!.getNat?, ← pvalOfJson a[1]!)
+      let o := mkObject row.num props cmd init
+      let isLocal := match fldBool j "local" with | .ok b => b | .error _ => false
+      let d' : Device := { objs := d.objs ++ [(oid, o)], localDev := if isLocal then some oid else d.localDev }
+      pure (d', jOk [("ids", Json.arr (props.map fun p => Json.num p.id).toArray)])
+  | "set" =>
+      -- harness-side (direct) update of one stored value, e.g. objectList after add_object
+      let oid ← oidOfJson (← fld j "oid")
+      let pid ← fldNat j "pid"
+      let v ← pvalOfJson (← fld j "v")
+      match findObj oid d.objs with
+      | none => throw "set: no such object"
+      | some o => pure ({ d with objs := setObj oid { o with props := setSlot pid v o.props } d.objs }, jOk [])
+  | "rp" =>
+      let oid ← oidOfJson (← fld j "oid")
+      match readService d oid (← fldNat j "pid") (← fldOptNat j "idx") with
+      | .ok ts => pure (d, Json.mkObj [("r", "ack"), ("hex", jTagsHex ts)])
+      | .error r => pure (d, jRefusal r)
+  | "wp" =>
+      let req : WriteReq := { oid := ← oidOfJson (← fld j "oid"), pid := ← fldNat j "pid",
+                              idx := ← fldOptNat j "idx", value := ← wireOfJson (← fld j "val"),
+                              prio := ← optInt j "prio" }
+      match writeService d req with
+      | (d', .ok ()) => pure (d', Json.mkObj [("r", "simpleack")])
+      | (d', .error r) => pure (d', jRefusal r)
+  | "rpm" =>
+      let specs ← (← fldArr j "specs").toList.mapM fun s => do
+        let refs ← (← fldArr s "refs").toList.mapM fun r => do
+          pure ({ pid := ← fldNat r "pid", idx := ← fldOptNat r "idx" } : PropRef)
+        pure (← oidOfJson (← fld s "oid"), refs)
+      match rpmService d specs with
+      | .ok res =>
+          pure (d, Json.mkObj [("r", "ack"), ("res", Json.arr (res.map fun (oid, es) =>
+            Json.mkObj [("oid", jOid oid), ("els", Json.arr (es.map jElem).toArray)]).toArray)])
+      | .error r => pure (d, jRefusal r)
+  | "snap" => pure (d, jOk [("objs", jSnapshot d)])
+  | op => throw s!"unknown op {op}"
+
+end C15
+
+def main : IO Unit := loopS ({ objs := [], localDev := none } : Device) C15.handle
